@@ -71,8 +71,21 @@ def generate(seed, tier):
     stale = bool((h >> 2) % 2)
     genome = tw.genome(w, nmax=4)[:4]
     frags = tw.library(w, genome, method, n_target=w.randint(4, 40 if tier == 'thorough' else 24))
-    params = {'method': method, 'encoded': w.random() < 0.7, 'lib': 'LIB', 'stale': stale, 'tier': tier}
-    mode = {'mp': mp, 'name': 'multi' if mp else 'single', 'width': st.schedule.randint(1, 3), 'schedule': {'policy': 'seeded'}, 'seed': seed}
+    if w.random() < 0.3 and frags:
+        # layouts in which a fault-free run must still deliver every record: a contig holding only placed-unmapped reads,
+        # a last small contig holding only rejected fragments
+        ci = w.randrange(len(genome))
+        kind_ = w.choice(['placed_unmapped', 'qcfail'])
+        if kind_ == 'qcfail':
+            genome = genome + [[f'tail{len(genome)}', w.randint(300, 3000)]]
+            ci = len(genome) - 1
+        o = dict(w.choice(frags))
+        clen = genome[ci][1]
+        o.update({'n': 1000 + len(frags), 'ctg': ci, 'L': min(o['L'], clen // 3), 'extra': None, 'clip': 0, 'defect': kind_})
+        o['site'] = w.randint(o['L'] + 8, clen - o['L'] - 8)
+        frags = [f for f in frags if f['ctg'] != ci] + [o]
+    params = {'method': method, 'encoded': w.random() < 0.7, 'lib': 'LIB', 'stale': stale, 'tier': tier, 'no_rejects': w.random() < 0.3}
+    mode = {'mp': mp, 'no_rejects': params['no_rejects'], 'name': 'multi' if mp else 'single', 'width': st.schedule.randint(1, 3), 'schedule': {'policy': 'seeded'}, 'seed': seed}
     return {'params': params, 'genome': genome, 'workload': frags, 'mode': mode}   # 'plans' absent -> enumerated by execute()
 
 
@@ -161,6 +174,14 @@ def execute(case):
             vacuous = True
         else:
             probe('baseline_success')
+            # the fault-free lifetime claims success too: it is held to the same standard
+            bprob = pl.check_sorted_indexed(base['out'])
+            bmis, bext = tc.conservation_diff(P, case['workload'], p['method'], p.get('no_rejects'), base.get('records') or [])
+            if bprob or bmis or bext:
+                viol.append({'property': PROPERTY, 'class': 'success-claimed-for-incomplete-output',
+                             'signature': f"{mode['name']}/no-fault/{(bprob or ['records-differ'])[0]}",
+                             'detail': {'plan': {'kind': 'none'}, 'mode': mode['name'], 'method': p['method'], 'no_rejects': p.get('no_rejects'), 'problems': bprob,
+                                        'n_missing': sum(bmis.values()), 'n_extra': sum(bext.values()), 'missing_ids': sorted({k[0] for k in bmis})[:6]}})
         crossings = bres.get('crossings') or []
         # first crossing index after which a record has been written: first 'write_pysam'-side line is not in the watch-list, use the molecule loop lines
         bytes_written = 0
@@ -225,8 +246,7 @@ def execute(case):
                 else:
                     try:
                         recs = pl.canonical_records(o['out'])
-                        got = collections.Counter(tc.conservation_key(r, both) for r in recs if not r['sec'])
-                        mis, ext = tc.multiset_diff(want, got)
+                        mis, ext = tc.conservation_diff(P, case['workload'], p['method'], p.get('no_rejects'), recs)
                         if mis or ext:
                             verdict = 'success-but-records-differ'
                             where = plan.get('func') or plan.get('seam') or plan.get('wkind') or plan['kind']
@@ -254,7 +274,7 @@ def execute(case):
 def narrow(case, violation):
     """explicit single-fault case for minimisation / replay"""
     c = dict(case)
-    c['plans'] = [violation['detail']['plan']]
+    c['plans'] = [violation['detail']['plan']] if violation['detail']['plan'].get('kind') != 'none' else []
     c.pop('slice', None)
     return c
 
